@@ -356,7 +356,12 @@ impl CompressedUsedLeafsIndexes {
     ) -> Result<(), ()> {
         let total_tree_height: u32 = tree_heights.iter().sum::<u8>().into();
 
-        if self.count >= (2u64.pow(total_tree_height) - 1) {
+        // Index of the last signature; a counter has 64 bits, whatever the parameters allow
+        let last = 1u64
+            .checked_shl(total_tree_height)
+            .map_or(u64::MAX, |total| total - 1);
+
+        if self.count >= last {
             return Err(());
         }
 
